@@ -428,7 +428,7 @@ Fixpoint rf_map_m {A B : Type} (f : A -> option B) (l : list A) : option (list B
 Definition rf_opt_map_m {A B : Type} (f : A -> option B) (o : option A) : option (option B) :=
   match o with Some x => y <- f x ;; Some (Some y) | None => Some None end.
 
-(* ===== adapters for tools/gen_fn_cansi.py (-> Generated/CansiFn.v) =================
+(* ===== adapters for tools/gen_fn_cansi.py (-> Generated/CansiFn.v) =====
    Definitions only; nothing above uses them.  cansi 2.2.1 as TRANSLATED from the registry source
    is proved equal to [rf_categorise] in Proofs/CansiGen.v. *)
 
@@ -485,3 +485,24 @@ Fixpoint rf_fold_m {A B : Type} (f : A -> B -> option A) (l : list B) (a : A) : 
   | [] => Some a
   | x :: t => a' <- f a x ;; rf_fold_m f t a'
   end.
+
+(* ===== adapters for tools/gen_fn_roffcrate.py ===== *)
+(* (roff 0.2.1 src/lib.rs translated -> Generated/RoffCrateFn.v; definitions only, nothing above uses them) *)
+
+(* struct Roff { lines: Vec<Line> } = the list of its lines: the field getter / setter are identities *)
+Definition rf_roff_lines (d : list rf_line) : list rf_line := d.
+Definition rf_roff_set_lines (d : list rf_line) (l : list rf_line) : list rf_line := l.
+
+(* enum Apostrophes { Handle, DontHandle } with its derived PartialEq *)
+Inductive rf_apostrophes : Set := RfHandle | RfDontHandle.
+Definition rf_apostrophes_eqb (a b : rf_apostrophes) : bool :=
+  match a, b with
+  | RfHandle, RfHandle => true
+  | RfDontHandle, RfDontHandle => true
+  | _, _ => false
+  end.
+
+(* str::starts_with(<ASCII char>), str::contains(<ASCII char>) on the UTF-8 bytes *)
+Definition rf_starts_with_char (c : N) (s : list N) : bool :=
+  match s with x :: _ => x =? c | [] => false end.
+Definition rf_contains_char (c : N) (s : list N) : bool := existsb (N.eqb c) s.
